@@ -283,6 +283,18 @@ fn do_reenter(act: &J) -> String {
             };
             res_json(&execute(text, c))
         }
+        "lock_ctx_block" => {
+            // really takes the lock of the evaluating context (no try_lock first): if the engine still holds it, this thread
+            // deadlocks against itself and the supervisor reports it
+            let h = ST.with(|st| st.borrow().ctx.as_ref().map(ctx_handle));
+            match h {
+                Some(h) => {
+                    let n = h.0.lock().map(|g| g.len()).unwrap_or(usize::MAX);
+                    format!("{{\"ok\":[\"n\",\"{}\",0]}}", n)
+                }
+                None => "\"no_ctx\"".to_string(),
+            }
+        }
         "exec_same" | "lock_ctx" => {
             let h = ST.with(|st| st.borrow().ctx.as_ref().map(ctx_handle));
             let h = match h {
